@@ -371,7 +371,7 @@ let () =
        | _ when !dead ->
            (* after a failure the case is abandoned; consume the matching observation lines *)
            (match toks with
-            | ("new" | "copy") :: _ -> (match expect_res () with `Ok -> ignore (rdo ()) | `Exn _ -> ())
+            | ("new" | "copy" | "twin") :: _ -> (match expect_res () with `Ok -> ignore (rdo ()) | `Exn _ -> ())
             | "op" :: _ :: name :: _ ->
                 ignore (expect_res ());
                 let rec eat () = match rdo () with Some l when (match split l with ("ret" | "tok") :: _ -> true | _ -> false) -> eat () | _ -> () in eat ()
@@ -400,6 +400,16 @@ let () =
            let y = get (int_of_string b) in
            let vs = check_state y st in
            List.iter (fun (k, v) -> report ("copy/" ^ k) line v) vs;
+           if List.exists (fun (_, v) -> match v with Fail _ -> true | _ -> false) vs then dead := true
+           else resync (int_of_string a) st
+       | "twin" :: a :: b :: how :: _ ->
+           incr step; incr stats_steps;
+           ignore (expect_res ());
+           let st = parse_st (match rdo () with Some l -> l | None -> raise (Syntax "eof")) in
+           let y = get (int_of_string b) in
+           bump ("twin:" ^ how);
+           let vs = check_state y st in
+           List.iter (fun (k, v) -> report ("twin/" ^ k) line v) vs;
            if List.exists (fun (_, v) -> match v with Fail _ -> true | _ -> false) vs then dead := true
            else resync (int_of_string a) st
        | "op" :: rest ->
